@@ -3,7 +3,7 @@ CONSTANTS
   Keys <- K4
   Vals = {1, 2}
   MaxLevels = {1, 2}
-  RichKeys <- Keys
+  RichKeys <- RichAll
   MaxCommits = 2
   Log <- LogAppend
   Depth = 5
